@@ -68,6 +68,12 @@ def case_desc(filter_by, metadata):
 
 
 def replay(ctx, case):
+    if isinstance(case, (list, tuple)):
+        if len(case) == 2 and isinstance(case[0], list):
+            check_listing(ctx, case)
+        else:
+            check_pair(ctx, case[0], case[1])
+        return
     check_pair(ctx, case['filter'], case['metadata'])
 
 
@@ -124,44 +130,48 @@ def random_part(ctx):
     return ok
 
 
-def listing_part(ctx):
+def check_listing(ctx, case):
     """Integration clause: one odd recording cannot abort a lookup (in-memory and S3 cassettes)."""
     from pbt import zoo
-    ok = True
+    mds, flt = case
+    with zoo.Zoo(kinds=('memory', 's3')) as z:
+        for cas in z.cassettes:
+            ids = []
+            for md in mds:
+                r = cas.create_new_recording('Cat')
+                r.set_data('k', 1)
+                r.add_metadata(dict(md))
+                cas.save_recording(r)
+                ids.append(r.id)
+            want = []
+            unspecified = False
+            for rid, md in zip(ids, mds):
+                w = refmatch.match(flt, md)
+                if w is UNSPECIFIED:
+                    unspecified = True
+                elif w:
+                    want.append(rid)
+            try:
+                got = list(cas.iter_recording_ids('Cat', metadata=dict(flt)))
+            except Exception as e:  # pylint: disable=broad-except
+                raise Violation('listing on %s raised %s: %s (filter=%r, metadata=%r)' % (
+                    z.name(cas), type(e).__name__, e, flt, mds), 'listing-totality')
+            if not unspecified and sorted(got) != sorted(want):
+                raise Violation('listing on %s returned %r, expected %r (filter=%r, metadata=%r)' % (
+                    z.name(cas), got, want, flt, mds), 'listing-meaning')
+    ctx.case({'listing': {'metadata': mds, 'filter': flt}}, len(mds) >= 2 and bool(flt), classes=('listing',))
 
-    def body(case):
-        mds, flt = case
-        with zoo.Zoo(kinds=('memory', 's3')) as z:
-            for cas in z.cassettes:
-                ids = []
-                for md in mds:
-                    r = cas.create_new_recording('Cat')
-                    r.set_data('k', 1)
-                    r.add_metadata(dict(md))
-                    cas.save_recording(r)
-                    ids.append(r.id)
-                want = []
-                unspecified = False
-                for rid, md in zip(ids, mds):
-                    w = refmatch.match(flt, md)
-                    if w is UNSPECIFIED:
-                        unspecified = True
-                    elif w:
-                        want.append(rid)
-                try:
-                    got = list(cas.iter_recording_ids('Cat', metadata=dict(flt)))
-                except Exception as e:  # pylint: disable=broad-except
-                    raise Violation('listing on %s raised %s: %s (filter=%r, metadata=%r)' % (
-                        z.name(cas), type(e).__name__, e, flt, mds), 'listing-totality')
-                if not unspecified and sorted(got) != sorted(want):
-                    raise Violation('listing on %s returned %r, expected %r (filter=%r, metadata=%r)' % (
-                        z.name(cas), got, want, flt, mds), 'listing-meaning')
-        ctx.case({'listing': {'metadata': mds, 'filter': flt}}, len(mds) >= 2 and bool(flt), classes=('listing',))
 
-    strat = st.tuples(st.lists(st.dictionaries(st.sampled_from(KEYS), json_values, max_size=3), min_size=1, max_size=4),
+def listing_part(ctx):
+    # stored metadata goes through the serializer: dict keys that are serializer tags (py/...) are outside its
+    # faithful domain (DESIGN.md 2.2), so the stored side uses values without them
+    from pbt import values as V
+    stored_values = st.recursive(json_scalars, lambda c: st.one_of(
+        st.lists(c, max_size=3), st.dictionaries(st.sampled_from(['k', 'operator', 'value']), c, max_size=3)),
+                                 max_leaves=6).filter(V.faithful)
+    strat = st.tuples(st.lists(st.dictionaries(st.sampled_from(KEYS), stored_values, max_size=3), min_size=1, max_size=4),
                       st.dictionaries(st.sampled_from(KEYS), filters, min_size=1, max_size=2))
-    ok = hyp_search(ctx, strat, body, ctx.pick(150, 3000), label='listing')
-    return ok
+    return hyp_search(ctx, strat, lambda c: check_listing(ctx, c), ctx.pick(150, 3000), label='listing')
 
 
 def run(ctx):
